@@ -1,6 +1,7 @@
 package main
 
 import (
+	"math"
 	"bytes"
 	"encoding/json"
 	"strings"
@@ -46,6 +47,9 @@ func junkAt(w *World, round string, now int64, thorough bool) []Item {
 	mkStart("range-negative", []requests.SigningTask{{MessageID: "r", RangeStart: -3, RangeEnd: 1}})
 	mkStart("range-beyond", []requests.SigningTask{{MessageID: "r", RangeStart: 18630, RangeEnd: 18640}})
 	mkStart("range-empty", []requests.SigningTask{{MessageID: "r", RangeStart: 5, RangeEnd: 5}})
+	mkStart("range-far-beyond", []requests.SigningTask{{MessageID: "r", RangeStart: 1 << 40, RangeEnd: math.MaxInt64}})
+	mkStart("range-span-overflows", []requests.SigningTask{{MessageID: "r", RangeStart: math.MinInt64, RangeEnd: math.MaxInt64}})
+	mkStart("range-negative-wide", []requests.SigningTask{{MessageID: "r", RangeStart: -(1 << 62), RangeEnd: -1}})
 	if thorough { // expands all 18 632 baked entries before failing: seconds per case
 		mkStart("range-huge", []requests.SigningTask{{MessageID: "r", RangeStart: 0, RangeEnd: 1 << 40}})
 	}
